@@ -293,7 +293,19 @@ def _change_flag(ob, rep, prog, interp, fm, recv):
             cur = par
         return False
 
+    def list_ok(lst):
+        fills = [c for c in ast.walk(fn) if isinstance(c, ast.Call) and isinstance(c.func, ast.Attribute) and
+                 c.func.attr in ("append", "add", "extend") and isinstance(c.func.value, ast.Name) and c.func.value.id == lst]
+        created = any(isinstance(st, ast.Assign) and any(isinstance(t, ast.Name) and t.id == lst for t in st.targets)
+                      and isinstance(st.value, (ast.List, ast.Set, ast.Call)) for st in ast.walk(fn))
+        return bool(fills) and created and all(raised_around(c) for c in fills)
+
     def deferred_ok(node):
+        # the collected marks are handed over as a whole: `marked.update(collected)` / `marked |= collected`
+        if isinstance(node, ast.Call) and len(node.args) == 1 and isinstance(node.args[0], ast.Name) and list_ok(node.args[0].id):
+            return True
+        if isinstance(node, ast.AugAssign) and isinstance(node.value, ast.Name) and list_ok(node.value.id):
+            return True
         cur = node
         while id(cur) in parent:
             par = parent[id(cur)]
